@@ -4,7 +4,7 @@
 # reverts, re-runs the demo, and stores the artefacts under /verif/seeded/<ID>-<k>/.
 ID=$1; K=$2; shift 2
 SRC=/tmp/wt/$ID-out/$K
-OUT=/verif/seeded/$ID-$K
+OUT=/verif/seeded/$ID-${ROUND:+$ROUND-}$K
 mkdir -p $OUT
 cd /repo
 if [ -n "$(git status --short)" ]; then echo "REPO DIRTY - abort"; exit 2; fi
